@@ -212,6 +212,8 @@ class Unblock1014(object):
             if not block:  # eof
                 break
             self.buffer += block[:1012]
+        if read_all:
+            bytes_to_read = len(self.buffer)
         output = self.buffer[:bytes_to_read]
         self.buffer = self.buffer[bytes_to_read:]
         return output
